@@ -94,6 +94,8 @@ def c04(root, tier, tree):
     tasks += _gen_tasks(root, T["gen"], plan, 100000, bias={"liveness": True, "oos": True, "strings": True}, stream="program-live")
     tasks += _gen_tasks(root, T["gen"] // 2, plan, 200000)
     tasks += _gen_tasks(root, T["gen"], plan, 300000, gen_kw={"nearmiss": True}, stream="program-nearmiss")
+    # cycles through the multi-symbol error transition in front of a negated character class
+    tasks += _gen_tasks(root, T["gen"] // 2, plan, 400000, gen_kw={"nearmiss2": True}, stream="program-nearmiss2")
     return tasks
 
 
